@@ -57,6 +57,8 @@ def main():
     for mf in sorted(glob.glob(os.path.join(VERIF, "seeded", "*", "meta.json"))):
         m = json.load(open(mf))
         seeded.append(dict(name="seeded:" + m["id"], file="", expect=[m["breaks_property"]], patch=os.path.relpath(os.path.join(os.path.dirname(mf), "patch.diff"), VERIF)))
+    for pf in sorted(glob.glob(os.path.join(VERIF, "selftest", "refactors", "*.diff"))):     # behaviour-preserving rewrites: every check must stay silent
+        seeded.append(dict(name="refactor:" + os.path.basename(pf)[:-5], file="", expect=[], patch=os.path.relpath(pf, VERIF)))
     props = a.props.split(",") if a.props else implemented()
     vs = [v for v in variants.V + seeded if not a.only or a.only in v["name"]]
     bad = 0
